@@ -24,7 +24,7 @@ ASSUMPTIONS = [
     "emitters are handed request frames to answer; answering a response or meta frame is outside the statement",
 ]
 TRUSTED = ["correspondence harness harness/h_regp.c + tools/lib/vf.py (return code, octets at the sink, session counter, fields of the frame returned by regp_recv)"]
-DESIGN_REF = "DESIGN.md section 8, C08"
+DESIGN_REF = "DESIGN.md section 0.2 (as built) and section 8, C08"
 TECHNIQUE = ("Lean 4 proofs: every emitter's wire octets equal the document's frame layout in the document's framing (big-endian fields, CRC-16/ARC header and "
              "payload checksums exactly on serial links, SLIP / varint prefix); the receiver accepts them and returns the same fields; the session counter steps by "
              "one modulo 2^16 + differential correspondence on emit/loop-back/receive sequences")
